@@ -97,6 +97,12 @@ def run(ctx):
         fam = rng.choice(['cf1d', 'cf2d', 'shoc_simple', 'shoc_standard', 'ugrid'])
         d, ds, specs, variables, tname = make_dataset(rng, fam)
         via_ems = rng.random() < 0.5
+        # as read from a netCDF-4 file in which a horizontal dimension is unlimited too (tiles concatenated along it):
+        # xarray records that in the dataset's encoding; it says nothing about the sea floor
+        if n % 2 == 0:
+            hdim = rng.choice(list(d.spec['kinds']['face']))
+            ds.encoding['unlimited_dims'] = {'record', hdim}
+            ctx.count('encoding:horizontal dimension unlimited')
         ctx.count(f'family:{d.family}')
         ctx.count(f'depth_dimensions:{len(specs)}')
         ctx.count(f'coords_on_first_depth_dim:{len(specs[0]["coords"])}')
